@@ -344,6 +344,7 @@ type KVGenOpts struct {
 	FinalCheck  bool
 	ExtraOp     func(g *KVGen) *drv.Op // property-specific op generator, tried with probability PExtra
 	PExtra      float64
+	Prelude     func(g *KVGen) // structured steps emitted after the set-up, before the random history
 }
 
 type KVGen struct {
@@ -384,6 +385,9 @@ func GenKVHistory(r *rand.Rand, o KVGenOpts) *KVGen {
 		g.Steps = append(g.Steps, drv.Op{Op: "inst", R: 1, I: "kvb", T: "keyvalue"})
 	}
 	g.Fixed = len(g.Steps)
+	if o.Prelude != nil {
+		o.Prelude(g)
+	}
 	for i := 0; i < o.Steps; i++ {
 		g.step()
 	}
